@@ -85,6 +85,21 @@ CHECKS = {
         note="Solver time-outs are simulated by the `unknown` result (the only way the code observes them); faults are injected in sequential evaluation, one parallel run per scenario is validated without faults. Sticky preprocessing-timed-out flag in later calls is accepted as a named deviation (rows are flagged).",
         ref="6 C14", tech="fault enumeration over all clock-observation and solver-check points with an interposed virtual clock; TLC trace validation against Budget.tla; TLC model checking of the budget design",
     ),
+    "C16": dict(
+        text="Ocf.tla models the ranking object's lazy cache (RankWorld lazy/forced, ComputeAll, Touch by formula_rank/acceptance, Save/SaveFail/Load); TLC checks all interleavings keep the cache exact. Life cycles of real System Z ranking objects (bases consistent for the mode, fact lists, extended in {None, False, True}, random operation orders, plus the System Z operator's answer to the same query) are recorded and validated by TLC: the object's ranks must be KZStar of the fact-augmented base from the semantic core, construction is refused exactly when the combination is inconsistent, acceptance equals the operator whenever the antecedent has a feasible model.",
+        note="Same trusted base as C01 for the semantic core; bases over 2-3 atoms.",
+        ref="6 C16", tech="TLA+ life-cycle machine model-checked by TLC; TLC trace validation of recorded object life cycles against the machine and the semantic core",
+    ),
+    "C18": dict(
+        text="Laws of formula_rank, conditional_acceptance, marginalize, compute_conditionalization, ranks2tpo/tpo2ranks as TLA+ definitions (FRank, Accepts, Marg, CondOn, Tpo, SameOrder); every total ranking over 1-2 atoms with ranks 0..3 (exhaustive) and seeded, half asymmetric, rankings over 3-4 (6) atoms go through all operations on the real code and TLC compares every recorded result with the law; System Z and c-representation objects go through the same operations in life-cycle traces.",
+        note="The harness evaluates formulas to world sets (its 20-line evaluator is trusted); the laws themselves are evaluated by TLC.",
+        ref="6 C18", tech="TLC validation of recorded operation results against TLA+ definitions of the laws; exhaustive over small rankings",
+    ),
+    "C20": dict(
+        text="Ocf.tla has an explicit disk: Save from every partial-computation state, SaveFail (unchanged objects), Load; TLC checks cache/disk exactness and that copies agree. Real objects of every kind are saved from partially computed states, with real failures (missing directory, unwritable path, unpicklable member), loaded in the same process and in a fresh interpreter, ranked further on original and copy; impacts and metadata round trips are recorded as equalities; every life cycle is validated by TLC against the machine.",
+        note="Failure points are the two the property names (unwritable target, unserialisable member); a crash of the interpreter in the middle of pickle.dump is not produced.",
+        ref="6 C20", tech="TLA+ life-cycle machine with disk and SaveFail action model-checked by TLC; TLC trace validation of recorded save/load histories incl. injected failures",
+    ),
 }
 
 NOT_YET = {
